@@ -23,6 +23,17 @@ def outcome(f):
         return classify(ex), type(ex).__name__ + ': ' + str(ex)[:120]
 
 
+def outcome_rep(f, n=3):
+    """the same call n times on the same decorated object: a history-dependent deviation (caches, flags that stay
+    set) shows as a later outcome that differs from the first; the deviating outcome is what is reported"""
+    seq = [outcome(f) for _ in range(n)]
+    first = seq[0]
+    for o in seq[1:]:
+        if o[0] != first[0]:
+            return o[0], (o[1] or '') + f' [call history: outcomes {[x[0] for x in seq]}]'
+    return first[0], first[1]
+
+
 _mod_counter = [0]
 
 
@@ -62,7 +73,7 @@ def run_case(c):
         except BaseException as ex:
             res['out'], res['exc'] = 9, 'decoration failed: ' + repr(ex)[:100]
             return res
-        res['out'], res['exc'] = outcome(lambda: mod.f(x=val))
+        res['out'], res['exc'] = outcome_rep(lambda: mod.f(x=val))
         res['body_ran'] = len(journal)
     elif obs == 'dataclass':
         src = ('from pedantic import frozen_type_safe_dataclass\n@frozen_type_safe_dataclass\nclass D:\n    x: ANN\n')
@@ -71,7 +82,7 @@ def run_case(c):
         except BaseException as ex:
             res['out'], res['exc'] = 9, 'decoration failed: ' + repr(ex)[:100]
             return res
-        res['out'], res['exc'] = outcome(lambda: mod.D(x=val))
+        res['out'], res['exc'] = outcome_rep(lambda: mod.D(x=val))
     return res
 
 
@@ -117,7 +128,7 @@ def run_zoo(c):
         arg = None if c['obs'] == 'zoo_ret' else val
         if c['obs'] == 'zoo_ret':
             mod.f.__annotations__  # noqa
-        r['out'], r['exc'] = outcome(lambda: mod.f(x=arg))
+        r['out'], r['exc'] = outcome_rep(lambda: mod.f(x=arg))
         r['body_ran'] = len(journal)
     return r
 
@@ -144,7 +155,8 @@ def run_missing(c):
             ns[f'D{i}'] = val
             s += f' = D{i}'
         parts.append(s)
-        kwargs[f'p{i}'] = val
+        if not (p['default'] and p.get('omit')):
+            kwargs[f'p{i}'] = val
     ret = ' -> None'
     if c['miss'] == n:
         ret = ''
@@ -170,7 +182,7 @@ def run_missing(c):
         call = lambda: asyncio.run(mod.f(**kwargs))
     else:
         call = lambda: mod.f(**kwargs)
-    r['out'], r['exc'] = outcome(call)
+    r['out'], r['exc'] = outcome_rep(call)
     r['body_ran'] = len(journal)
     return r
 
@@ -241,7 +253,7 @@ def run_gclass(c):
         if f is None:
             return None
         return f(**kw)
-    r['out'], r['exc'] = outcome(call)
+    r['out'], r['exc'] = outcome_rep(call)
     if r['out'] == 4 and r['exc'].startswith('TypeError') and 'missing 1 required' in r['exc']:
         r['out'] = 0      # Python's own rejection of the call (argument missing): not from the checking machinery
     return r
@@ -318,7 +330,7 @@ def run_varargs(c):
     else:
         kw = {f'k{i}': v for i, v in enumerate(vals)}
         call = (lambda: mod.f(a=1, **kw)) if c['lead'] else (lambda: mod.f(**kw))
-    r['out'], r['exc'] = outcome(call)
+    r['out'], r['exc'] = outcome_rep(call)
     r['body_ran'] = len(journal)
     return r
 
